@@ -72,6 +72,13 @@ def main():
     exchange(b, nsgenv.join("dora", "Defender"))
     drain()
     for ep in range(episodes):
+        # requests that are refused: the refusal texts are part of the responses and must not depend on the process either
+        # (several required parameters missing at once, unknown parameters, an unsupported type, text that is not JSON)
+        for bad in (msg("ScanNetwork"), msg("BlockIP"), msg("ExfiltrateData", data={"owner": "a", "id": "b", "size": 0, "type": ""}),
+                    msg("FindServices", bogus=1, other=2, third=3), '{"action_type": "ActionType.Nope", "parameters": {}}', "not json",
+                    nsgenv.join("again", "Attacker")):
+            exchange(attackers[ep % len(attackers)], bad)
+            drain()
         for step in range(nsteps):
             for who, a in enumerate(attackers):
                 st = g._agent_states[a]
